@@ -149,7 +149,11 @@ func countScenarios(tier string) []*mc.Scenario {
 			syncReq("unsubscribe.test.m", "", 0), syncReq("get.test.m", "", 0), syncReq("unsubscribe.test.m", "", 0),
 			syncReq("subscribe.test.m", "", 0), syncReq("unsubscribe.test.m", `{"count":0}`, 0),
 			syncReq("unsubscribe.test.m", `{"count":-1}`, 0), syncReq("unsubscribe.test.m", `{"count":"x"}`, 0),
-			syncReq("unsubscribe.test.m", `{"count":null}`, 0), syncReq("unsubscribe.test.m", "", 0))},
+			syncReq("unsubscribe.test.m", `{"count":null}`, 0),
+			// counts that do not fit a signed integer must be refused, not wrapped
+			syncReq("unsubscribe.test.m", `{"count":18446744073709551615}`, 0), syncReq("unsubscribe.test.m", `{"count":9223372036854775808}`, 0),
+			syncReq("unsubscribe.test.m", `{"count":1.5}`, 0), syncReq("unsubscribe.test.m", `{"count":1e0}`, 0),
+			syncReq("unsubscribe.test.m", "", 0))},
 		Menu: menuStd(true, true),
 	})
 	out = append(out, &mc.Scenario{
